@@ -95,7 +95,7 @@ DELTAS = [0.0] + [d for m in (1e-12, 1e-10, 2e-9, 1e-8, 1e-6, 1e-4, 3e-4, 5e-4, 
 
 
 def centres():
-    return [("t%d" % nl, t) for nl, t in sorted(cpr.TRANS.items())] + [("zero", 0.0), ("pole", 90.0)]
+    return [("t%d" % nl, t) for nl, t in sorted(cpr.TRANS.items())] + [("zero", 0.0), ("pole", 90.0)] + [("deg%d" % d, float(d)) for d in (1, 10, 11, 45, 86, 88)]
 
 
 def enum_nbh(ctx):
@@ -118,6 +118,8 @@ def chk_nbh(case, note):
         x = math.nextafter(x, math.inf)
         y = math.nextafter(y, -math.inf)
         pts += [x, y]
+    if c == int(c):
+        pts.append(int(c))  # whole degrees are often passed as Python ints
     n = 0
     for lat in pts:
         if not -90 <= lat <= 90:
